@@ -292,7 +292,9 @@ def harnesses(tier):
     H = {
         'H1-build-race': lambda v: events_harness(v, [[('is_valid', 'ext-ok')], [('iter_errors', 'subst')]], build=False,
                                                   count_builds=True),
-        'H2-xsitype-keys': lambda v: events_harness(v, [[('iter_errors', 'ext-dup')], [('iter_errors', 'ext-ok')]]),
+        # both documents retype gl under s1 (unique US1, selector .//sub): the first two uses of the substituted type on one
+        # schema object are concurrent, so the permanent augmentation of the identity constraint is raced
+        'H2-xsitype-keys': lambda v: events_harness(v, [[('iter_errors', 'g1-dup')], [('iter_errors', 'g1-ext')]]),
         'H2b-xsitype-simple': lambda v: events_harness(v, [[('iter_errors', 'val-type')], [('decode', 'val-type')]]),
         'H3-scratch-context': lambda v: events_harness(v, [[('st-valid', '7'), ('st-valid', 'a')], [('st-valid', '11'), ('st-decode', '7')]]),
         'H3b-validate-vs-scratch': lambda v: events_harness(v, [[('iter_errors', 'fixed-bad')], [('st-valid', '11'), ('st-valid', '7')]]),
